@@ -2,7 +2,9 @@
 #include "varintDelta.h"
 #include "varintBP128.h"
 #include "varintElias.h"
+#include "varintFloat.h"
 size_t w_deltaMaxEncodedSize(size_t count) { return varintDeltaMaxEncodedSize(count); }
 size_t w_bp128MaxBytes(size_t count) { return varintBP128MaxBytes(count); }
 size_t w_eliasGammaMaxBytes(size_t count) { return varintEliasGammaMaxBytes(count); }
 size_t w_eliasDeltaMaxBytes(size_t count) { return varintEliasDeltaMaxBytes(count); }
+size_t w_floatMaxEncodedSize(size_t count, varintFloatPrecision precision) { return varintFloatMaxEncodedSize(count, precision); }
